@@ -233,4 +233,4 @@ class Source(Entity):
     @metadata.deleter
     def metadata(self):
         if "metadata" in self._h5group:
-            self._h5group.delete("metadata")
+            self._h5group.delete("metadata", delete_if_empty=False)
